@@ -2,7 +2,7 @@ SPECIFICATION Spec
 CONSTANTS
   Names = {"x"}
   FullNames = {"x"}
-  FileTok = {"f1"}
+  FileTok = {"f2"}
   EnvTok = {"e1", "e2"}
   ExecTok = {"p1"}
   SbomTok = {"s1"}
